@@ -41,7 +41,13 @@ pub fn install_panic_hook() {
         let th = std::thread::current().name().unwrap_or("<unnamed>").to_string();
         if let Ok(mut p) = PANICS.lock() {
             if p.len() < 5 {
-                eprintln!("vh: panic in thread {}: {} at {}", th, msg, loc);
+                eprintln!(
+                    "vh: panic in thread {}: {} at {} [case {}]",
+                    th,
+                    msg,
+                    loc,
+                    crate::util::CURRENT_CASE.load(Ordering::Relaxed)
+                );
             }
             if p.len() < 1000 {
                 p.push(PanicRec { thread: th, message: msg, location: loc, t_ns: now_ns() });
